@@ -569,15 +569,17 @@ def gen_block_comment(rng, eol="\n"):
     return eol.join(lines)
 
 
-def render_blockcomments(items, rng, share=4):
+def render_blockcomments(items, rng, share=4, tight=False, limit=None):
     """The plain layout (render_plain) with block comments of arbitrary shape in every position a
-    comment can take relative to the declarations: first in the file, on its own lines before a
+    comment can take at the boundaries of declarations: first in the file, on its own lines before a
     declaration (top level, in a body, in a nested body; at the declaration's indentation or not;
-    attached, or detached by a blank line before / after), trailing a complete declaration on its
-    line, after an opening brace, last in a body before the closing brace, on the line of the next
-    declaration, last in the file (with or without a final line break), and - rarely - between two
-    tokens of a declaration.  Line ends are LF, or CRLF in one file of eight (the comment may
-    disagree with the file).  Returns (text, number of comments placed); at least one is placed."""
+    attached, or detached by a blank line before / after; two in a row), trailing a complete
+    declaration on its line, last in a body before the closing brace, last in the file (with or
+    without a final line break).  With tight=True also: after an opening brace, on the line of the
+    next declaration, and - rarely - between two tokens of a declaration (failures of such files are
+    attributed to the comment-on-same-line / block-comment-inside-declaration classes).  Line ends
+    are LF, or CRLF in one file of eight (one comment in sixteen disagrees with its file).
+    Returns (text, number of comments placed); at least one is placed, at most `limit`."""
     out = []
     depth = 0
     eol = "\r\n" if rng.chance(1, 8) else "\n"
@@ -592,14 +594,14 @@ def render_blockcomments(items, rng, share=4):
         return gen_block_comment(rng, e)
 
     def hit(num):
-        return rng.below(16 * num) < share * 4
+        return rng.below(4 * num) < share and (limit is None or placed[0] < limit)
     ndecl = 0
-    for kind, x in items:
+    for i, (kind, x) in enumerate(items):
         if kind == "t":
             out.append(x)
             continue
         if x == "sp":
-            if rng.below(480) < share:
+            if tight and rng.below(600) < share and (limit is None or placed[0] < limit):
                 out.append(rng.choice([" ", "", eol + ind()]) + cm() + rng.choice([" ", "", eol + ind()]))
             else:
                 out.append(" ")
@@ -608,13 +610,16 @@ def render_blockcomments(items, rng, share=4):
         elif x in ("co_sep", "lit_nl", "cat"):
             out.append(" ")
         elif x == "nl":
+            if out and out[-1] == "{" and items[i + 1] == ("t", "}"):
+                continue        # an empty body is written `{}`: `{` line-end `}` with any line end but a
+                                # bare LF is the known empty-body finding (class irregular-whitespace)
             out.append(eol + ind())
         elif x == "in":
             depth += 1
-            if hit(12):
+            if tight and hit(12):
                 out.append(rng.choice([" ", ""]) + cm())
         elif x == "de":
-            if hit(8):
+            if hit(8) and not (out and out[-1] == "{"):
                 out.append(eol + rng.choice([ind(), ind(), "", ind() + "  ", "\t"]) + cm())
             depth -= 1
         elif x == "decl":
@@ -629,13 +634,13 @@ def render_blockcomments(items, rng, share=4):
             k = rng.below(12)
             at = ind() if rng.chance(3, 4) else rng.choice(["", "  ", "    ", "\t", " ", ind() + "  ", ind() + "\t"])
             if lead:
-                out[-1] = eol + (eol if k in (6, 7) else "")
+                out[-1] = eol + (eol if k in (6, 7) else "")     # a blank line before the comment
             c = cm()
-            if k == 11:
+            if k == 11 and tight:
                 out.append(at + c + rng.choice([" ", " ", ""]))                   # on the declaration's line
             elif k in (7, 8, 9):
                 out.append(at + c + eol + eol + ind())                           # detached
-            elif k == 10:
+            elif k == 10 and (limit is None or placed[0] < limit):
                 out.append(at + c + eol + at + cm() + eol + ind())               # two comments in a row
             else:
                 out.append(at + c + eol + ind())
@@ -657,7 +662,13 @@ def gen_source(rng, stratum):
     adversarial.  Returns (text, meta)."""
     if stratum == "plain-blockcomments":
         g = Gen(rng, size=rng.range(1, 3), shuffle_header=rng.chance(1, 5))
-        text, n = render_blockcomments(g.file(), rng, share=rng.range(2, 6))
+        text, n = render_blockcomments(g.file(), rng, share=rng.range(2, 6), tight=rng.chance(1, 3))
+        return text, {"stratum": stratum, "comments": n}
+    if stratum == "plain-onecomment":
+        # exactly one block comment in the file, at a declaration boundary (the comment of the formatted output
+        # can be paired with it: correspondence with the model of emitBlockComment)
+        g = Gen(rng, size=rng.range(1, 2), shuffle_header=rng.chance(1, 5))
+        text, n = render_blockcomments(g.file(), rng, share=rng.range(1, 3), limit=1)
         return text, {"stratum": stratum, "comments": n}
     if stratum == "plain":
         g = Gen(rng, size=rng.range(1, 4))
@@ -932,6 +943,15 @@ def layout_class(tree, stratum, decl_info=None):
         return "comment-on-same-line-as-next-declaration"
     if any(d.get("empty") for d in decl_info or []):
         return "empty-declaration"          # a lone `;` at file scope
-    if stratum.startswith("plain") or stratum == "shuffled-plain":
+    if (stratum.startswith("plain") or stratum == "shuffled-plain") and not _cr_in_whitespace(tree):
         return "plain-layout"
-    return "irregular-whitespace"
+    return "irregular-whitespace"           # includes files with CRLF line ends
+
+
+def _cr_in_whitespace(ts):
+    for t in ts or []:
+        if t["c"] <= 1 and b"\r" in _txt(t):
+            return True
+        if t["c"] >= 9 and _cr_in_whitespace(t["ch"]):
+            return True
+    return False
